@@ -169,7 +169,18 @@ def w_choice_winner_uninvolved(events, line):
             bad.append((l, o))
     if not bad:
         return False
-    return all(leaves.get(l, {}).get("choice") and o not in owners and l not in involved for l, o in bad)
+    # ... and only where the winning case CHANGED with this transaction (the former winner left or was moved down)
+    bestpre = {}
+    for o, p, l, v in pre["intended"]:
+        if l not in bestpre or p < bestpre[l][1]:
+            bestpre[l] = (o, p, v)
+    winpre = {}
+    for l, (o, p, v) in bestpre.items():
+        ch = leaves.get(l, {}).get("choice")
+        if ch and (ch not in winpre or p < winpre[ch][0]):
+            winpre[ch] = (p, leaves[l]["case"])
+    switched = lambda l: leaves[l]["choice"] in winpre and winpre[leaves[l]["choice"]][1] != win[leaves[l]["choice"]][1]
+    return all(leaves.get(l, {}).get("choice") and o not in owners and l not in involved and switched(l) for l, o in bad)
 
 
 def w_xml_leaflist_replace(events, line):
